@@ -229,3 +229,35 @@ pub fn big_cases() -> Vec<Content> {
     }
     v
 }
+
+/// Length sweep: names and strings of every length 0..=48, shared between a label and a
+/// string cell or not — slides every text offset across the table offsets and alignment
+/// boundaries (coincidences between text-relative and data-relative offsets show here).
+pub fn length_sweep() -> Vec<Content> {
+    let mut v = Vec::new();
+    for e in [End::Little, End::Big] {
+        for l in [4usize, 8] {
+            for k in 0..=48usize {
+                let n1: String = "abcdefghij".chars().cycle().take(k).collect();
+                for share in 0..4 {
+                    let mut c = Content::new(e);
+                    c.data = vec![0; l];
+                    let s = match share {
+                        0 => n1.clone(),       // string equal to the first (long) label name
+                        1 => "y".to_string(),  // string equal to the second label name
+                        2 => format!("{}z", n1), // string longer than the first name
+                        _ => "s".to_string(),
+                    };
+                    c.strings.insert(0, s);
+                    if l == 8 {
+                        c.pointers.insert(4, 4);
+                    }
+                    c.labels.insert(0, vec![n1.clone()]);
+                    c.labels.insert(l, vec!["y".to_string()]);
+                    v.push(c);
+                }
+            }
+        }
+    }
+    v
+}
